@@ -785,7 +785,7 @@ impl Prop for C14 {
         }
     }
     fn cases(tier: Tier) -> u64 {
-        scale(tier, 200_000, 12_000_000)
+        scale(tier, 1_000_000, 12_000_000)
     }
     fn rule() -> &'static str {
         "a buffer (fresh alloc_bytes / recycled from the free list / alloc_aligned_bytes::<T> at an odd cursor / both; borrowed or owned; capacity 0..96) inside an arena whose every other byte is a canary, pre-filled to a generated len, then 1..5 generated calls: put_*/write_* for 12 integer types x {be,le,ne} x boundary/random values, get_*, put+get round trips, LEB128 puts (+ get on an empty buffer), put_slice/write, set_len, align_to/put/put_aligned over the type table. Oracle: whole-memory() snapshot before/after each call: bytes outside [offset, offset+capacity) unchanged, len law, value bytes equal a reference encoder, failed fixed-width puts change nothing, set_len zero-fills exactly the exposed/hidden bytes, align_to pointers aligned and inside the buffer. Non-trivial = a call within size_of bytes of the capacity boundary, or a buffer whose offset differs from its buffer_offset"
